@@ -51,16 +51,17 @@ MAX_REPORTED = 4        # violations written per failing predicate
 def plan(pid, tier):
     """Bounds per tier: (MC configurations, GEN configurations, random batches).
     shapes: d2 = every tree of depth <= 2; d3 = every depth-2 tree wrapped once more; c3 / c4 = every chain
-    op_n(..op_1(leaf)) of depth 3 / 4 over the reduced alphabet (a Plus on the spine has a leaf on its other side)."""
+    op_n(..op_1(leaf)) of depth 3 / 4 over the reduced alphabet (a Plus on the spine has a leaf on its other side);
+    jx = Join with an expression-valued function: inner combinator trees over non-monotone data, nil inners anywhere."""
     S, W = "small", "wide"
     if tier == "quick":
-        return ([dict(shape="d2", width=S), dict(shape="c3", width=S)],
-                [dict(shape="d2", width=S, perbase=0), dict(shape="c3", width=S, perbase=0)],
+        return ([dict(shape="d2", width=S), dict(shape="c3", width=S), dict(shape="jx", width=S)],
+                [dict(shape="d2", width=S, perbase=0), dict(shape="c3", width=S, perbase=0), dict(shape="jx", width=S, perbase=0)],
                 dict(batches=2, n=150, depth=6))
     c4 = 5 if pid == "C14" else 2
     d3 = 4 if pid == "C14" else 2
-    return ([dict(shape="d2", width=W), dict(shape="c3", width=S), dict(shape="d3", width=S), dict(shape="c4", width=S)],
-            [dict(shape="d2", width=W, perbase=0), dict(shape="c3", width=S, perbase=0),
+    return ([dict(shape="d2", width=W), dict(shape="c3", width=S), dict(shape="jx", width=S), dict(shape="d3", width=S), dict(shape="c4", width=S)],
+            [dict(shape="d2", width=W, perbase=0), dict(shape="c3", width=S, perbase=0), dict(shape="jx", width=S, perbase=0),
              dict(shape="d3", width=S, perbase=d3), dict(shape="c4", width=S, perbase=c4)],
             dict(batches=4, n=600, depth=6))
 
@@ -92,17 +93,7 @@ def explore(run, binp):
     with Scratch() as d:
         # ---- 2. GEN + replay on the real iterators
         for gi, c in enumerate(gens):
-            r = run_tlc(MOD[pid] + "Gen", GEN_CFG % dict(cfgk, **c), timeout=2400, heap="8g", args=["-seed", str(run.seed)])
-            if r.violated:
-                raise Infra("%sGen stopped: %s" % (MOD[pid], r.out[-1500:]))
-            cases = r.json_prints("case")
-            tables = r.json_prints("tables")
-            if not cases or not tables:
-                raise Infra("%sGen printed %d cases and %d tables" % (MOD[pid], len(cases), len(tables)))
-            # one line per wrapped expression: nothing may be lost or garbled on the way
-            mids = len(r.json_prints("mid"))
-            if len(cases) + mids != r.distinct:
-                raise Infra("%sGen: %d cases + %d intermediate lines parsed, %d distinct states" % (MOD[pid], len(cases), mids, r.distinct))
+            r, cases, tables = run_gen(pid, GEN_CFG % dict(cfgk, **c), run.seed)
             run.add_mc(MOD[pid] + "Gen", r, c)
             replay_cases(run, binp, d, "g%d" % gi, tables, cases, c)
             run.notes["trees_replayed"] = run.notes.get("trees_replayed", 0) + len(cases)
@@ -116,6 +107,21 @@ def explore(run, binp):
             run_harness(run, binp, "TestRandom", env, {"mode": "random", "env": env})
             traces = [json.loads(l) for l in open(outp) if l.strip()]
             judge_traces(run, traces, d, "b%d" % b)
+
+
+def run_gen(pid, cfg, seed):
+    """One generator run.  Every state prints exactly one line (a case or a marker): when the count does not add up -
+    lines of concurrent workers can tear - the run is repeated with a single worker before giving up."""
+    why = ""
+    for workers in (None, 1):
+        r = run_tlc(MOD[pid] + "Gen", cfg, timeout=2400, heap="8g", args=["-seed", str(seed)], workers=workers)
+        if r.violated:
+            raise Infra("%sGen stopped: %s" % (MOD[pid], r.out[-1500:]))
+        cases, tables, mids = r.json_prints("case"), r.json_prints("tables"), len(r.json_prints("mid"))
+        if cases and tables and len(cases) + mids == r.distinct:
+            return r, cases, tables
+        why = "%d cases + %d intermediate lines + %d tables parsed, %d distinct states" % (len(cases), mids, len(tables), r.distinct)
+    raise Infra("%sGen: %s" % (MOD[pid], why))
 
 
 # ------------------------------------------------------------------------------------------------ harness runs
@@ -199,7 +205,8 @@ def judge_traces(run, traces, d, tag):
     tf = os.path.join(d, "batch_%s.json" % tag)
     with open(tf, "w") as f:
         json.dump({"traces": judged}, f)
-    r = run_tlc(MOD[pid] + "Trace", TRACE_CFG % dict(ext=EXT[pid]), env={"TRACE_FILE": tf}, timeout=2400, heap="8g")
+    # a single worker: the judgements are printed lines, and lines of concurrent workers can tear
+    r = run_tlc(MOD[pid] + "Trace", TRACE_CFG % dict(ext=EXT[pid]), env={"TRACE_FILE": tf}, timeout=2400, heap="8g", workers=1)
     if r.violated:
         raise Infra("%sTrace stopped: %s" % (MOD[pid], r.out[-2000:]))
     done, ndrift, per_pred = set(), 0, {}
@@ -223,7 +230,8 @@ def judge_traces(run, traces, d, tag):
                 t = judged[v["ti"] - 1]
                 run.drift.append("trace %s#%d %s: the cursor model differs at %s %d" % (tag, v["ti"], json.dumps(t["expr"]), v["what"], v["step"]))
     if len(done) != len(judged):
-        raise Infra("%sTrace consumed %d of %d traces:\n%s" % (MOD[pid], len(done), len(judged), r.out[-1500:]))
+        errs = [l for l in r.out.splitlines() if not l.startswith('"') and ("rror" in l or "xception" in l)]
+        raise Infra("%sTrace consumed %d of %d traces:\n%s\n%s" % (MOD[pid], len(done), len(judged), "\n".join(errs[:12]), r.out[-600:]))
     for k, n in per_pred.items():
         run.notes["trace_findings_" + k] = run.notes.get("trace_findings_" + k, 0) + n
     if ndrift:
